@@ -1,5 +1,7 @@
 """C20 -- operator descriptions, printing, tokens and indexing round-trip."""
+import numpy as np
 from vlib import gen
+from vlib import impl_np as NP_
 from vlib.run import corr, do, impl, opt, norm
 
 RULE = ('all strings x 4 phases for N<=3 (exhaustive) and random N<=12 through: repr -> parse, tokenize -> parse, letters / codes / dict / prefix '
@@ -115,7 +117,35 @@ def c_index(ctx, args):
         return corr(ctx, be, 'list_weight', [l])
 
 
-CHECKS = {'roundtrip': c_roundtrip, 'parse_corr': c_parse_corr, 'formats': c_formats, 'index': c_index}
+def c_poly_index(ctx, args):
+    """PauliPolynomial.__getitem__ (slice / mask / index array / int): the selected terms keep their strings, PHASES and coefficients (list arithmetic on the term list)"""
+    be, terms, kind, ix = args              # terms [[g, p, [re, im]], ...]
+    if be == 'torch' and kind == 'int':
+        return None                           # the port's polynomial has no single-term type: an integer index yields 0-d tensors, nothing documented to compare
+    if be == 'np':
+        import pyclifford as pcl
+        P = pcl.PauliPolynomial(NP_.GS([t[0] for t in terms]), np.array([t[1] for t in terms], dtype=np.int_)).set_cs(np.array([complex(*t[2]) for t in terms]))
+        sel = {'slice': lambda: slice(*ix), 'mask': lambda: np.array(ix, dtype=bool), 'idx': lambda: np.array(ix, dtype=int), 'int': lambda: int(ix)}[kind]()
+    else:
+        import torch, torchclifford as tcl, vlib.impl_torch as TT
+        P = tcl.paulialg.PauliPolynomial(TT.GS([t[0] for t in terms]), TT.PS([t[1] for t in terms])).set_cs(torch.tensor([complex(*t[2]) for t in terms], dtype=torch.complex128))
+        sel = {'slice': lambda: slice(*ix), 'mask': lambda: torch.tensor([bool(b) for b in ix]), 'idx': lambda: torch.tensor([int(i) for i in ix], dtype=torch.long), 'int': lambda: int(ix)}[kind]()
+    want = {'slice': lambda: terms[slice(*ix)], 'mask': lambda: [t for t, m in zip(terms, ix) if m], 'idx': lambda: [terms[i] for i in ix], 'int': lambda: [terms[ix]]}[kind]()
+    try:
+        r = P[sel]
+    except Exception as e:
+        return None if be == 'torch' and kind == 'int' else {'kind': 'oracle', 'where': '%s:PauliPolynomial[%s] raised %s' % (be, kind, type(e).__name__), 'observed': str(e)[:100], 'expected': want}
+    if hasattr(r, 'cs'):
+        got = [[[int(round(float(v))) for v in g], int(round(float(p))) % 4, [complex(c).real, complex(c).imag]] for g, p, c in zip(r.gs, r.ps, r.cs)]
+    else:       # a single term: PauliMonomial (g, p, c)
+        got = [[[int(round(float(v))) for v in r.g], int(round(float(r.p))) % 4, [complex(r.c).real, complex(r.c).imag]]]
+    want = [[t[0], t[1] % 4, [float(t[2][0]), float(t[2][1])]] for t in want]
+    if got != want:
+        return {'kind': 'oracle', 'where': '%s:PauliPolynomial[%s] vs the term list' % (be, kind), 'observed': got, 'expected': want, 'tags': ['poly_index', be]}
+    return None
+
+
+CHECKS = {'poly_index': c_poly_index, 'roundtrip': c_roundtrip, 'parse_corr': c_parse_corr, 'formats': c_formats, 'index': c_index}
 
 
 def run(ctx):
@@ -167,3 +197,13 @@ def run(ctx):
         if kind in ('mask', 'idx'):
             ctx.res.count('index_form_' + form)
         ctx.res.count('index_' + kind)
+    # polynomials: selected terms keep phases and coefficients
+    for _ in range(int(120 * B)):
+        n = rng.randint(1, 3)
+        L = rng.randint(1, 5)
+        terms = [[gen.rstr(rng, n), rng.randint(0, 3), [rng.choice([1, -1, 0.5, 2, 0]), rng.choice([0, 0, 1, -0.5])]] for _ in range(L)]
+        be = rng.choice(['np', 'torch'])
+        kind = rng.choice(['slice', 'mask', 'idx', 'int'])
+        ix = {'slice': [rng.choice([None, 0, 1, -1, -2]), rng.choice([None, 1, 2, L, -1]), rng.choice([None, 1, 2])], 'mask': [rng.randint(0, 1) for _ in range(L)],
+              'idx': [rng.randrange(L) for _ in range(rng.randint(1, 3))], 'int': rng.randrange(L)}[kind]
+        do(ctx, 'poly_index', [be, terms, kind, ix], nontrivial=(be, 'pi', kind, str(terms), str(ix)))
